@@ -309,6 +309,9 @@ func checkC17(r *Report) {
 		checkGenGRPC(r, v)
 	}
 	checkSystemIDs(r, v3)
+	// the generated names of the resolver's identifiers cover every identifier
+	nS := stringerCurrentRule(r, loadResolve("", false), "C17/STRINGER-CURRENT", "resolve", "System", "VersionType")
+	r.floor("C17/STRINGER-CURRENT", "constants of resolve.System and resolve.VersionType", nS, 6)
 	r.Stats["artefact_pairs_compared"] = r.Programs
 }
 
